@@ -51,7 +51,8 @@ theorem C02_gen_clamps :
     (ObsTables.nicEnabledCode, ObsTables.nicDisabledCode) = (nicEnabledCode, nicDisabledCode) ∧
     (ObsTables.portEnabledCode, ObsTables.portDisabledCode) = (nicEnabledCode, nicDisabledCode) ∧
     ObsTables.nmneCaptureBranch = true ∧ ObsTables.nmneDefaultWhenNotCapturing = true ∧
-    ObsTables.nmneCaptureSource = "'nmne' in nic_state" ∧ ObsTables.nmneObserveReadsClassAttribute = false := by
+    ObsTables.nmneCaptureSource = "'nmne' in nic_state" ∧ ObsTables.nmneObserveReadsClassAttribute = false ∧
+    ObsTables.aclSlotRead = ["acl_items.get(i)"] := by
   decide
 
 /-- every `default_observation` literal is 0, and every `space` body reads only attributes assigned at construction
@@ -542,11 +543,6 @@ theorem C02_acl_fromConfig_cfgOk (wh numRules) (ips wcs : List String) (ports : 
     (AclObs.fromConfig wh numRules ips wcs ports protos).CfgOk :=
   ⟨dedupFirst_nodup _, dedupFirst_nodup _, dedupFirst_nodup _, dedupFirst_nodup _⟩
 
-/-- state the encoder handles without raising: the ACL has at least `num_rules` slots -/
-def AclObs.SlotsOk (o : AclObs) (slots : List (Option RuleState)) : Prop := o.numRules ≤ slots.length
-
-def AclObs.Compat (o : AclObs) (st : SimState) : Prop := o.CfgOk ∧ ∀ slots, o.find st = some slots → o.SlotsOk slots
-
 theorem AclObs.find_wf {o st slots} (w : WfState st) (hf : AclObs.find o st = some slots) :
     ∀ r ∈ slots, ∀ x, r = some x → x.action ∈ ACLAction.values := by
   unfold AclObs.find at hf
@@ -558,38 +554,40 @@ theorem AclObs.find_wf {o st slots} (w : WfState st) (hf : AclObs.find o st = so
     obtain ⟨n, hn, hl⟩ := node_bind hf
     exact (w.node hn).2.2.2.2.2.2 (a, slots) (lookupS_mem hl)
 
-/-- ACL observation, **partial**: holds for every state in which the observation does not ask for more slots than the ACL has
-(F-6, open). `CfgOk` holds of every constructed object (`C02_acl_fromConfig_cfgOk`); an address outside `ip_list` encodes as 1
-since the F-7 fix. -/
-theorem C02_acl_in_space_partial (o : AclObs) (st : SimState) (w : WfState st) (c : o.Compat st) :
+/-- ACL observation, **full** (since the F-6 repair): every state, whatever the number of slots the ACL really has — a position beyond
+them reads as an empty slot.  `CfgOk` is not an exclusion but an invariant of construction (`C02_acl_fromConfig_cfgOk`): it holds of
+every object the constructor builds; an address outside `ip_list` encodes as 1 since the F-7 fix. -/
+theorem C02_acl_in_space (o : AclObs) (st : SimState) (w : WfState st) (c : o.CfgOk) :
     contains o.space (o.val st) = true := by
   unfold AclObs.val
   cases hf : o.find st with
   | none => exact C02_acl_default_in_space o
   | some slots =>
     have ws := AclObs.find_wf w hf
-    obtain ⟨⟨hips, hwcs, hports, hprotos⟩, hc⟩ := c
-    have hlen : o.numRules ≤ slots.length := hc slots hf
+    obtain ⟨hips, hwcs, hports, hprotos⟩ := c
     unfold AclObs.space
     refine contains_dict_of_par (Par.map _ _ _ _ (fun i hi => ?_)) (aclKeys_nodup _ _ _)
     rw [rangeFrom_eq] at hi
     have hi' : i < o.numRules := by have := (List.mem_range'_1.mp hi).2; omega
-    have hlt : i < slots.length := by omega
-    have hget : slots[i]? = some slots[i] := List.getElem?_eq_getElem hlt
-    rw [hget]
-    cases hr : slots[i] with
+    cases hget : slots[i]? with
     | none => exact C02_acl_empty_rule_in_space o i hi'
-    | some r =>
-      have hmem : slots[i] ∈ slots := List.getElem_mem hlt
-      have hact := C02_leaf_acl_action _ (ws _ hmem r hr)
-      simp only [AclObs.ruleVal, AclObs.ruleSpace]
-      exact aclRule_par (by simp [contains, hi']) (by simp [contains, hact]) (getId_in_space _ hips _)
-        (getId_in_space _ hwcs _) (getId_in_space _ hports _) (getId_in_space _ hips _) (getId_in_space _ hwcs _)
-        (getId_in_space _ hports _) (getId_in_space _ hprotos _)
+    | some slot =>
+      cases hr : slot with
+      | none => exact C02_acl_empty_rule_in_space o i hi'
+      | some r =>
+        have hmem : slot ∈ slots := List.mem_of_getElem? hget
+        have hact := C02_leaf_acl_action _ (ws _ hmem r hr)
+        simp only [AclObs.ruleVal, AclObs.ruleSpace]
+        exact aclRule_par (by simp [contains, hi']) (by simp [contains, hact]) (getId_in_space _ hips _)
+          (getId_in_space _ hwcs _) (getId_in_space _ hports _) (getId_in_space _ hips _) (getId_in_space _ hwcs _)
+          (getId_in_space _ hports _) (getId_in_space _ hprotos _)
 
-/-- The unrestricted ACL statement. It is FALSE of the code (finding F-6). -/
+/-- The unrestricted ACL statement: whatever lists and `num_rules` are configured (repeats, more rules than slots), whatever the
+well-formed state.  It was FALSE of the code (F-6, F-C02-1, F-7); all three are repaired and it is proved below (`C02_acl_full`). -/
 def C02_FullAcl : Prop :=
-  ∀ (o : AclObs) (st : SimState), WfState st → contains o.space (o.val st) = true
+  ∀ (wh : Option (String × String)) (numRules : Nat) (ips wcs : List String) (ports : List Nat) (protos : List String) (st : SimState),
+    WfState st →
+    contains (AclObs.fromConfig wh numRules ips wcs ports protos).space ((AclObs.fromConfig wh numRules ips wcs ports protos).val st) = true
 
 def witnessRule (src : Option String) : RuleState :=
   { action := 1, proto := none, srcIp := src, srcWc := none, srcPort := none, dstIp := none, dstWc := none, dstPort := none }
@@ -631,9 +629,9 @@ theorem C02_acl_unknown_ip_fixed :
     WfState f7State ∧ (f7Obs.val f7State).raises = false ∧ contains f7Obs.space (f7Obs.val f7State) = true :=
   ⟨witnessRule_wf _ (by intro r hr; simp only [List.mem_singleton] at hr; exact Or.inr ⟨_, hr⟩), by decide, by decide⟩
 
-/-- F-6: `num_rules` larger than the number of slots the ACL has makes `observe` raise (KeyError). -/
-theorem C02_acl_too_many_rules_counterexample :
-    WfState f6State ∧ (f6Obs.val f6State).raises = true ∧ contains f6Obs.space (f6Obs.val f6State) = false :=
+/-- F-6 (fixed): `num_rules` larger than the number of slots the ACL has — the surplus positions read as empty slots, in the space. -/
+theorem C02_acl_too_many_rules_fixed :
+    WfState f6State ∧ (f6Obs.val f6State).raises = false ∧ contains f6Obs.space (f6Obs.val f6State) = true :=
   ⟨witnessRule_wf _ (by intro r hr; simp only [List.mem_singleton] at hr; exact Or.inl hr), by decide, by decide⟩
 
 /-- F-C02-1 (fixed): with a repeated entry in `ip_list` the constructed object de-duplicates, and a listed address stays in
@@ -642,32 +640,21 @@ theorem C02_acl_repeated_entry_fixed :
     WfState dupState ∧ (dupObs.val dupState).raises = false ∧ contains dupObs.space (dupObs.val dupState) = true :=
   ⟨witnessRule_wf _ (by intro r hr; simp only [List.mem_singleton] at hr; exact Or.inr ⟨_, hr⟩), by decide, by decide⟩
 
-/-- for every configured list (repeats included) and every state, an ACL observation built by the constructor is in its space as
-soon as the ACL has `num_rules` slots -/
+/-- **for every configured list (repeats included), every `num_rules` and every well-formed state, an ACL observation built by the
+constructor is in its space** — no hypothesis on the configuration or on the number of slots any more -/
 theorem C02_acl_fromConfig_in_space (wh numRules) (ips wcs : List String) (ports : List Nat) (protos : List String)
-    (st : SimState) (w : WfState st)
-    (hs : ∀ slots, (AclObs.fromConfig wh numRules ips wcs ports protos).find st = some slots → numRules ≤ slots.length) :
+    (st : SimState) (w : WfState st) :
     contains (AclObs.fromConfig wh numRules ips wcs ports protos).space ((AclObs.fromConfig wh numRules ips wcs ports protos).val st) = true :=
-  C02_acl_in_space_partial _ st w ⟨C02_acl_fromConfig_cfgOk _ _ _ _ _ _, hs⟩
+  C02_acl_in_space _ st w (C02_acl_fromConfig_cfgOk _ _ _ _ _ _)
 
-theorem C02_acl_counterexample : ¬ C02_FullAcl := by
-  intro h
-  have h2 := h f6Obs f6State C02_acl_too_many_rules_counterexample.1
-  rw [C02_acl_too_many_rules_counterexample.2.2] at h2
-  cases h2
+theorem C02_acl_full : C02_FullAcl := fun wh n ips wcs ports protos st w => C02_acl_fromConfig_in_space wh n ips wcs ports protos st w
 
-/-- non-vacuity of the partial theorem: a state with a real rule satisfies the hypotheses -/
+/-- non-vacuity: a state with a real rule, observed with more positions than the ACL has slots -/
 example :
-    let o : AclObs := { wh := some ("r", "acl"), numRules := 2, ips := ["10.0.0.1", "10.0.0.2"], wcs := ["0.0.0.1"],
-                        ports := [80], protos := ["tcp"] }
+    let o : AclObs := AclObs.fromConfig (some ("r", "acl")) 5 ["10.0.0.1", "10.0.0.2", "10.0.0.1"] ["0.0.0.1"] [80] ["tcp"]
     let st := witnessState [some (witnessRule (some "10.0.0.2")), none, none]
-    o.Compat st ∧ (o.find st).isSome = true := by
-  refine ⟨⟨⟨by decide, by decide, by decide, by decide⟩, ?_⟩, by decide⟩
-  intro slots hs
-  have : slots = [some (witnessRule (some "10.0.0.2")), none, none] := by
-    simp [AclObs.find, witnessState, SimState.node, lookupS] at hs; exact hs.symm
-  subst this
-  exact (by decide : 2 ≤ 3)
+    (o.find st).isSome = true ∧ (o.val st).raises = false ∧ contains o.space (o.val st) = true := by
+  refine ⟨by decide, by decide, by decide⟩
 
 /-! ### host -/
 
@@ -743,9 +730,8 @@ theorem C02_host_in_space (o : HostObs) (st : SimState) (w : WfState st) (ok : o
 
 /-! ### router, firewall -/
 
-def RouterObs.Compat (o : RouterObs) (st : SimState) : Prop := o.acl.Compat st
-def FirewallObs.Compat (o : FirewallObs) (st : SimState) : Prop :=
-  ∀ a slots, (o.acl a).find st = some slots → (o.acl a).SlotsOk slots
+/-- construction invariant of a router observation: its ACL id tables have no repeated entry (true of every constructed object) -/
+def RouterObs.CfgOk (o : RouterObs) : Prop := o.acl.CfgOk
 
 theorem FirewallObs.acl_cfgOk (o : FirewallObs) (a : String) : (o.acl a).CfgOk := C02_acl_fromConfig_cfgOk _ _ _ _ _ _
 
@@ -759,7 +745,7 @@ theorem C02_router_default_in_space (o : RouterObs) : contains o.space o.default
     (Par.opt _ _ fun _ => by decide))) (routerKeys_nodup _ _ _ _ _)
   exact enum_const_in_space _ _ _ (by decide)
 
-theorem C02_router_in_space_partial (o : RouterObs) (st : SimState) (w : WfState st) (c : o.Compat st) :
+theorem C02_router_in_space (o : RouterObs) (st : SimState) (w : WfState st) (c : o.CfgOk) :
     contains o.space (o.val st) = true := by
   unfold RouterObs.val
   split
@@ -775,7 +761,7 @@ theorem C02_router_in_space_partial (o : RouterObs) (st : SimState) (w : WfState
         | none => have := wn.2.2.2.2.2.1; simp [hu] at this
         | some u => exact C02_users_in_space u
       unfold RouterObs.space
-      refine contains_dict_of_par (Par.cons (C02_acl_in_space_partial _ st w c) (Par.append (Par.opt _ _ fun _ => ?_)
+      refine contains_dict_of_par (Par.cons (C02_acl_in_space _ st w c) (Par.append (Par.opt _ _ fun _ => ?_)
         (Par.opt _ _ fun _ => hu))) (routerKeys_nodup _ _ _ _ _)
       exact contains_dict_of_par (Par.enumFrom _ _ _ _ (fun x _ => C02_port_in_space x st)) (nodup_keys_enumFrom _ _)
     · exact C02_router_default_in_space o
@@ -797,8 +783,9 @@ theorem C02_firewall_default_in_space (o : FirewallObs) : contains o.space o.def
     (Par.opt _ _ fun _ => by decide))) (firewallKeys_nodup _ _ _ _)
   decide
 
-theorem C02_firewall_in_space_partial (o : FirewallObs) (st : SimState) (w : WfState st)
-    (c : o.Compat st) : contains o.space (o.val st) = true := by
+/-- firewall observation, **full and unconditional in the configuration** (its six ACL observations are built by the constructor) -/
+theorem C02_firewall_in_space (o : FirewallObs) (st : SimState) (w : WfState st) :
+    contains o.space (o.val st) = true := by
   unfold FirewallObs.val
   cases hn : st.node o.wh with
   | none => exact C02_firewall_default_in_space o
@@ -811,7 +798,7 @@ theorem C02_firewall_in_space_partial (o : FirewallObs) (st : SimState) (w : WfS
         | none => have := wn.2.2.2.2.2.1; simp [hu] at this
         | some u => exact C02_users_in_space u
       unfold FirewallObs.space
-      refine contains_dict_of_par (Par.cons ?_ (Par.cons (firewallAcl_in_space _ _ (fun a => C02_acl_in_space_partial _ st w ⟨o.acl_cfgOk a, c a⟩))
+      refine contains_dict_of_par (Par.cons ?_ (Par.cons (firewallAcl_in_space _ _ (fun a => C02_acl_in_space _ st w (o.acl_cfgOk a)))
         (Par.opt _ _ fun _ => hu))) (firewallKeys_nodup _ _ _ _)
       have hp := fun i => C02_port_in_space (o.port i) st
       exact contains_dict_of_par (Par.cons (hp 1) (Par.cons (hp 2) (Par.single (hp 3)))) (by simp [keysOf, Obs.enumFrom])
@@ -820,8 +807,7 @@ theorem C02_firewall_in_space_partial (o : FirewallObs) (st : SimState) (w : WfS
 /-! ### nodes -/
 
 def NodesObs.Ok (o : NodesObs) : Prop := ∀ h ∈ o.hosts, h.Ok
-def NodesObs.Compat (o : NodesObs) (st : SimState) : Prop :=
-  (∀ r ∈ o.routers, r.Compat st) ∧ (∀ f ∈ o.firewalls, f.Compat st)
+def NodesObs.CfgOk (o : NodesObs) : Prop := ∀ r ∈ o.routers, r.CfgOk
 
 theorem mem_keys_enumTag {α} {p : String} {k : Nat} {xs : List α} {key : Key} (h : key ∈ keysOf (enumTag p k xs)) :
     ∃ i, key = Key.si p i := by
@@ -858,19 +844,19 @@ theorem C02_nodes_default_in_space (o : NodesObs) (ok : o.Ok) : contains o.space
     (Par.enumTag _ _ _ _ _ (fun r _ => C02_router_default_in_space r))).append
     (Par.enumTag _ _ _ _ _ (fun f _ => C02_firewall_default_in_space f))) (nodesKeys_nodup _ _ _)
 
-theorem C02_nodes_in_space_partial (o : NodesObs) (st : SimState) (w : WfState st) (ok : o.Ok)
-    (c : o.Compat st) : contains o.space (o.val st) = true := by
+theorem C02_nodes_in_space (o : NodesObs) (st : SimState) (w : WfState st) (ok : o.Ok)
+    (c : o.CfgOk) : contains o.space (o.val st) = true := by
   unfold NodesObs.space NodesObs.val
   exact contains_dict_of_par ((Par.append (Par.enumTag _ _ _ _ _ (fun h hh => C02_host_in_space h st w (ok h hh)))
-    (Par.enumTag _ _ _ _ _ (fun r hr => C02_router_in_space_partial r st w (c.1 r hr)))).append
-    (Par.enumTag _ _ _ _ _ (fun f hf => C02_firewall_in_space_partial f st w (c.2 f hf)))) (nodesKeys_nodup _ _ _)
+    (Par.enumTag _ _ _ _ _ (fun r hr => C02_router_in_space r st w (c r hr)))).append
+    (Par.enumTag _ _ _ _ _ (fun f hf => C02_firewall_in_space f st w))) (nodesKeys_nodup _ _ _)
 
 /-- with hosts only (no ACL-carrying component) the statement is unconditional in the configuration and the state -/
 theorem C02_hosts_in_space (hosts : List HostObs) (st : SimState) (w : WfState st)
     (ok : ∀ h ∈ hosts, h.Ok) :
     contains (NodesObs.space { hosts := hosts, routers := [], firewalls := [] })
       (NodesObs.val { hosts := hosts, routers := [], firewalls := [] } st) = true :=
-  C02_nodes_in_space_partial _ st w ok ⟨by simp, by simp⟩
+  C02_nodes_in_space _ st w ok (by intro r hr; simp at hr)
 
 /-! ### any observation object (NestedObservation included), and trajectories -/
 
@@ -889,17 +875,17 @@ def Obs.OkL : List (String × Obs) → Prop
 end
 
 mutual
-/-- the ACL-carrying parts do not raise on this state (excludes exactly F-6; the no-repeat part holds by construction) -/
-def Obs.Compat (st : SimState) : Obs → Prop
-  | .acl o => o.Compat st
-  | .router o => o.Compat st
-  | .firewall o => o.Compat st
-  | .nodes o => o.Compat st
-  | .nested cs => Obs.CompatL st cs
+/-- construction invariant of the ACL-carrying parts: id tables without repeated entry.  NOT an exclusion of states or configurations
+(F-6 is repaired): it holds of everything the constructors build (`C02_acl_fromConfig_cfgOk`, `C02_raw_build_cfgOk`). -/
+def Obs.CfgOk : Obs → Prop
+  | .acl o => o.CfgOk
+  | .router o => o.CfgOk
+  | .nodes o => o.CfgOk
+  | .nested cs => Obs.CfgOkL cs
   | _ => True
-def Obs.CompatL (st : SimState) : List (String × Obs) → Prop
+def Obs.CfgOkL : List (String × Obs) → Prop
   | [] => True
-  | c :: cs => c.2.Compat st ∧ Obs.CompatL st cs
+  | c :: cs => c.2.CfgOk ∧ Obs.CfgOkL cs
 end
 
 theorem keysOf_spaceL (cs : List (String × Obs)) : keysOf (Obs.spaceL cs) = (cs.map Prod.fst).map Key.s := by
@@ -912,11 +898,11 @@ theorem spaceL_nodup (cs : List (String × Obs)) (h : (cs.map Prod.fst).Nodup) :
   exact List.Pairwise.map _ (fun a b (h : a ≠ b) he => h (by injection he)) h
 
 mutual
-/-- **C02, top level (partial only in the ACL hypotheses `Compat`)**: for every observation object — any nesting of any
+/-- **C02, top level (full: `Ok` and `CfgOk` are invariants of construction, no state or configuration is excluded)**: for every observation object — any nesting of any
 classes, any slot counts, thresholds and flags — and every well-formed simulation state, the value returned by `observe` is
 a member of the declared `space`. -/
 theorem C02_obs_in_space (st : SimState) (w : WfState st) :
-    ∀ o : Obs, o.Ok → o.Compat st → contains o.space (o.val st) = true
+    ∀ o : Obs, o.Ok → o.CfgOk → contains o.space (o.val st) = true
   | .null, _, _ => (by decide : contains (.discrete 1) (.int 0) = true)
   | .service o, _, _ => C02_service_in_space o st w
   | .app o, _, _ => C02_application_in_space o st w
@@ -926,16 +912,16 @@ theorem C02_obs_in_space (st : SimState) (w : WfState st) :
   | .port o, _, _ => C02_port_in_space o st
   | .link o, _, _ => C02_link_in_space o st w
   | .links os, _, _ => C02_links_in_space os st w
-  | .acl o, _, c => C02_acl_in_space_partial o st w c
+  | .acl o, _, c => C02_acl_in_space o st w c
   | .host o, ok, _ => C02_host_in_space o st w ok
-  | .router o, _, c => C02_router_in_space_partial o st w c
-  | .firewall o, _, c => C02_firewall_in_space_partial o st w c
-  | .nodes o, ok, c => C02_nodes_in_space_partial o st w ok c
+  | .router o, _, c => C02_router_in_space o st w c
+  | .firewall o, _, _ => C02_firewall_in_space o st w
+  | .nodes o, ok, c => C02_nodes_in_space o st w ok c
   | .nested cs, ok, c => by
     simp only [Obs.space, Obs.val]
     exact contains_dict_of_par (C02_nested_par st w cs ok.2 c) (spaceL_nodup cs ok.1)
 theorem C02_nested_par (st : SimState) (w : WfState st) :
-    ∀ cs : List (String × Obs), Obs.OkL cs → Obs.CompatL st cs → Par (Obs.spaceL cs) (Obs.valL st cs)
+    ∀ cs : List (String × Obs), Obs.OkL cs → Obs.CfgOkL cs → Par (Obs.spaceL cs) (Obs.valL st cs)
   | [], _, _ => Par.nil
   | c :: cs, ok, cp => Par.cons (C02_obs_in_space st w c.2 ok.1 cp.1) (C02_nested_par st w cs ok.2 cp.2)
 end
@@ -1072,43 +1058,42 @@ theorem C02_okL_next (st : SimState) (w : WfState st) :
 end
 
 mutual
-theorem compat_next (st st' : SimState) : ∀ o : Obs, o.Compat st' → (o.next st).Compat st'
+theorem cfgOk_next (st : SimState) : ∀ o : Obs, o.CfgOk → (o.next st).CfgOk
   | .null, h => h
   | .service _, h => h
   | .app _, h => h
   | .file _, h => h
-  | .folder _, _ => by simp [Obs.next, Obs.Compat]
-  | .nic _, _ => by simp [Obs.next, Obs.Compat]
+  | .folder _, _ => by simp [Obs.next, Obs.CfgOk]
+  | .nic _, _ => by simp [Obs.next, Obs.CfgOk]
   | .port _, h => h
-  | .link _, _ => by simp [Obs.next, Obs.Compat]
-  | .links _, _ => by simp [Obs.next, Obs.Compat]
+  | .link _, _ => by simp [Obs.next, Obs.CfgOk]
+  | .links _, _ => by simp [Obs.next, Obs.CfgOk]
   | .acl _, h => h
-  | .host _, _ => by simp [Obs.next, Obs.Compat]
+  | .host _, _ => by simp [Obs.next, Obs.CfgOk]
   | .router _, h => h
   | .firewall _, h => h
   | .nodes _, h => h
-  | .nested cs, h => by simp only [Obs.next, Obs.Compat]; exact compatL_next st st' cs h
-theorem compatL_next (st st' : SimState) :
-    ∀ cs : List (String × Obs), Obs.CompatL st' cs → Obs.CompatL st' (Obs.nextL st cs)
+  | .nested cs, h => by simp only [Obs.next, Obs.CfgOk]; exact cfgOkL_next st cs h
+theorem cfgOkL_next (st : SimState) :
+    ∀ cs : List (String × Obs), Obs.CfgOkL cs → Obs.CfgOkL (Obs.nextL st cs)
   | [], h => h
-  | c :: cs, h => ⟨compat_next st st' c.2 h.1, compatL_next st st' cs h.2⟩
+  | c :: cs, h => ⟨cfgOk_next st c.2 h.1, cfgOkL_next st cs h.2⟩
 end
 
 /-- **C02 along a trajectory**: starting from any object satisfying the invariant (in particular a freshly built one), every
 observation reported along ANY sequence of well-formed states is a member of the ONE space declared at the start. -/
-theorem C02_run_in_space : ∀ (sts : List SimState) (o : Obs), o.Ok →
-    (∀ st ∈ sts, WfState st ∧ o.Compat st) → ∀ v ∈ o.run sts, contains o.space v = true := by
+theorem C02_run_in_space : ∀ (sts : List SimState) (o : Obs), o.Ok → o.CfgOk →
+    (∀ st ∈ sts, WfState st) → ∀ v ∈ o.run sts, contains o.space v = true := by
   intro sts
   induction sts with
-  | nil => intro o _ _ v hv; simp [Obs.run] at hv
+  | nil => intro o _ _ _ v hv; simp [Obs.run] at hv
   | cons st rest ih =>
-    intro o ok h v hv
+    intro o ok c h v hv
     have hst := h st (by simp)
     simp only [Obs.run, List.mem_cons] at hv
     rcases hv with hv | hv
-    · subst hv; exact C02_obs_in_space st hst.1 o ok hst.2
-    · have := ih (o.next st) (C02_ok_next st hst.1 o ok)
-        (fun st' hst' => ⟨(h st' (by simp [hst'])).1, compat_next st st' o (h st' (by simp [hst'])).2⟩) v hv
+    · subst hv; exact C02_obs_in_space st hst o ok c
+    · have := ih (o.next st) (C02_ok_next st hst o ok) (cfgOk_next st o c) (fun st' hst' => h st' (by simp [hst'])) v hv
       rwa [C02_space_const] at this
 
 /-! #### non-vacuity: a concrete host observation on a concrete non-trivial state -/
@@ -1130,7 +1115,7 @@ def exState : SimState :=
                         numCreations := 17, numDeletions := 4, usm := some { localUser := true, remote := 9 }, acls := [] })],
     links := [] }
 
-example : WfState exState ∧ (Obs.host exHost).Ok ∧ (Obs.host exHost).Compat exState ∧
+example : WfState exState ∧ (Obs.host exHost).Ok ∧ (Obs.host exHost).CfgOk ∧
     contains exHost.space (exHost.val exState) = true ∧ (exHost.val exState).raises = false := by
   refine ⟨⟨?_, by simp [exState]⟩, ⟨?_, ?_⟩, trivial, by decide, by decide⟩
   · intro p hp
